@@ -237,4 +237,26 @@ theorem selectedUnion_one_exec (sqrt : Rat → Rat) (a : Arr) (t : List Arr) (rs
     rw [hcol] at hmem hle ⊢
     exact le_antisymm (hle _ hmem2) (hle2 _ hmem)
 
+/-- **FuzzySelectedUnion with k = the number of inputs is FuzzyUnion, for whole fields and any inputs** (Truest or Falsest alike) -/
+theorem selectedUnion_all_exec (sqrt : Rat → Rat) (a : Arr) (t : List Arr) (rs ru : Arr) (i : Nat) (sel : String)
+    (hs : exec sqrt (.fuzzySelectedUnion sel ⟨((a :: t).length : Nat), true⟩) (a :: t) = .ok rs)
+    (hu : exec sqrt .fuzzyUnion (a :: t) = .ok ru)
+    (hi : ∀ x ∈ a :: t, i < x.cells.length) :
+    ∃ cs cu, rs.cells[i]? = some cs ∧ ru.cells[i]? = some cu ∧ cs.mask = cu.mask ∧ (cs.mask = false → cs.val = cu.val) := by
+  obtain ⟨_, _, _, _, cs, h1, hms, hvs⟩ := selectedUnion_cell sqrt sel _ a t rs i hs (hi a List.mem_cons_self)
+  obtain ⟨cu, h2, hmu, hvu⟩ := union_cell sqrt a t ru i hu hi
+  refine ⟨cs, cu, h1, h2, by rw [hms, hmu], ?_⟩
+  intro hm
+  have hmu' : cu.mask = false := by rw [hmu, ← hms]; exact hm
+  rw [hvs hm, hvu hmu']
+  congr 1
+  have hperm : (sortRat ((column (a :: t) i).map (·.val))).Perm ((column (a :: t) i).map (·.val)) := List.mergeSort_perm _ _
+  have hlen : (sortRat ((column (a :: t) i).map (·.val))).length = (a :: t).length := by
+    rw [hperm.length_eq]; simp [column]
+  have hk : (⟨((a :: t).length : Nat), true⟩ : Num).val.num.toNat = (sortRat ((column (a :: t) i).map (·.val))).length := by
+    rw [hlen]
+    show (((a :: t).length : Nat) : Rat).num.toNat = (a :: t).length
+    rw [Rat.num_natCast, Int.toNat_natCast]
+  rw [hk, sel_all_is_mean, hperm.sum_eq, hlen]
+
 end MPilot.C06
